@@ -337,7 +337,12 @@ func c10R3(c *Ctx) {
 			}
 		case "ReconcilePodENI.gcCRPodENIs":
 			p.Func(podENICtlPkg, "ReconcilePodENI.podRequirePodENI") // anchor: the requirement names the predicate
-			c.Require("C10.R3", key, fn, ps.st.Node, ps.req("err != nil || !m.podRequirePodENI(ctx, p)"), nil)
+			errName, pred := podGetAndPredicate(p, fn)
+			if pred == "" {
+				c.Undec("C10.R3", key, p.Pos(ps.st.Node), fn.Key(), "the pod's Get and the podRequirePodENI test", "not recognised")
+				break
+			}
+			c.Require("C10.R3", key, fn, ps.st.Node, ps.req(errName+" != nil || !"+pred), nil)
 		default:
 			c.Bad("C10.R3", key, p.Pos(ps.st.Node), fn.Key(), "teardown started only from the three known sites", "new site")
 		}
@@ -762,4 +767,51 @@ func c10R11(c *Ctx) {
 		}
 	}
 	c.Floor("C10.R11", "cloud teardown calls in the helpers", 2, n)
+}
+
+// podGetAndPredicate finds, in the PodENI collector, the test `podRequirePodENI(ctx, P)` and the error
+// variable of the Get that filled P — by objects, so that the requirement is stated in the names the
+// function uses today.
+func podGetAndPredicate(p *Prog, fn *FuncInfo) (errName, pred string) {
+	info := fn.Info()
+	predM := p.Method(podENICtlPkg, "ReconcilePodENI", "podRequirePodENI")
+	var podObj types.Object
+	ast.Inspect(fn.Decl.Body, func(k ast.Node) bool {
+		if call, ok := k.(*ast.CallExpr); ok && predM != nil && Callee(info, call) == predM && len(call.Args) > 0 && pred == "" {
+			pred = exprString(call)
+			a := ast.Unparen(call.Args[len(call.Args)-1])
+			if u, ok := a.(*ast.UnaryExpr); ok {
+				a = u.X
+			}
+			podObj = identObj(info, a)
+		}
+		return true
+	})
+	if pred == "" || podObj == nil {
+		return "", ""
+	}
+	ast.Inspect(fn.Decl.Body, func(k ast.Node) bool {
+		as, ok := k.(*ast.AssignStmt)
+		if !ok || len(as.Lhs) != 1 || len(as.Rhs) != 1 {
+			return true
+		}
+		call, ok := ast.Unparen(as.Rhs[0]).(*ast.CallExpr)
+		if !ok || lastSeg(calleeName(info, call)) != "Get" {
+			return true
+		}
+		for _, a := range call.Args {
+			a = ast.Unparen(a)
+			if u, ok := a.(*ast.UnaryExpr); ok {
+				a = u.X
+			}
+			if identObj(info, a) == podObj {
+				errName = exprString(as.Lhs[0])
+			}
+		}
+		return true
+	})
+	if errName == "" {
+		return "", ""
+	}
+	return errName, pred
 }
